@@ -23,7 +23,8 @@ from props import c09 as M
 
 ID = "C10"
 LEVEL = "exploration"
-RULE = ("(value class, data or value, allow_short_write / force_unlock / ignore_feedback flags, initial lock byte, "
+RULE = ("(value class, data or value, allow_short_write / force_unlock / ignore_feedback flags - as bools or as truthy / "
+        "falsy objects of 11 other styles, falsy ones passed explicitly -, initial lock byte, "
         "addressing kind, unit variant, fault (query index, kind), image) tuples: per value class an enumeration of data "
         "patterns x lock byte x addressing, every unit variant (each shorter last location, several unlock values, DTR0 "
         "stuck), every fault kind at every write index and at the DTR0 check, every wrong length; plus Hypothesis-"
@@ -49,6 +50,12 @@ ASSUMPTIONS = [
     "after a write that RAISED nothing is demanded of the lock byte or of memory (the statement constrains writes "
     "that return normally)",
     "force_unlock on a value that is not lockable: the bank must be locked again afterwards if it has a lock",
+    "a write that neither is of a lockable value nor was asked to force_unlock has no business with the lock byte: it is "
+    "one of the 'other locations' that must not change",
+    "allow_short_write / force_unlock / ignore_feedback mean bool(object): handed over as 1 / 0 / 2 / 'yes' / '' / [0] / "
+    "[] / objects that only define __bool__ or __len__ (props.c09.SPELL) they must act as their truth value says - a "
+    "falsy object, passed explicitly, is the default; the unchanged library only ever tests their truth value; None is "
+    "not used (no option defaults to None)",
     "value-level writes (MemoryValue.write) are exercised only for plain numbers (table kind uint / cct), ASCII strings "
     "and the MASK / TMASK literals of numeric values - the reference encoding is big-endian / ASCII + NUL if shorter / "
     "the all-ones pattern; scaled and offset classes are not claimed to encode (see DESIGN 3, 'not counted')",
@@ -106,12 +113,31 @@ def variant_params(case):
     return v[0], p
 
 
+OPTIONS = (("asw", "allow_short_write"), ("force_unlock", "force_unlock"), ("ignore_feedback", "ignore_feedback"))
+
+
+def option_kwargs(case):
+    """The boolean options as handed to the library.  case[field] is what the option MEANS (a bool); case['spell'][field]
+    optionally names the style of a truthy / falsy object that is not a bool (props.c09.spelled), which is then passed
+    explicitly also when it means False.  Unspelled options are passed as True or left at their default."""
+    spell = case.get("spell") or {}
+    kw = {}
+    for field, name in OPTIONS:
+        if field == "asw" and case["mode"] == "value":
+            continue                    # value-level writes decide about short writes themselves
+        truth = bool(case.get(field))
+        if spell.get(field):
+            kw[name] = M.spelled(spell[field], truth)
+        elif truth:
+            kw[name] = True
+    return kw
+
+
 def describe(case):
-    s = "%s.%s(%s%s%s%s) via %s address %d, lock byte initially 0x%02x" % (
+    s = "%s.%s(%s%s) via %s address %d, lock byte initially 0x%02x" % (
         case["key"], "write" if case["mode"] == "value" else "write_raw",
         repr(case["value"]) if case["mode"] == "value" else "[" + M.hexs(case["data"]) + "]",
-        ", allow_short_write" if case.get("asw") else "", ", force_unlock" if case.get("force_unlock") else "",
-        ", ignore_feedback" if case.get("ignore_feedback") else "", case["addr"], case["short"], case["lock"])
+        "".join(", %s=%r" % (k, v) for k, v in option_kwargs(case).items()), case["addr"], case["short"], case["lock"])
     v = case.get("variant") or ["standard"]
     if v[0] != "standard":
         s += ", unit variant %s" % (v,)
@@ -179,16 +205,10 @@ def _case_steps(case, keep=None):
     bus = M.MemBus(w.units, fault=fault, max_commands=60 + 6 * len(locs), watch=w.target)
     where = describe(case)
     addr = M.make_addr(case["addr"], case["short"])
-    kw = {}
-    if force_unlock:
-        kw["force_unlock"] = True
-    if ignore_feedback:
-        kw["ignore_feedback"] = True
+    kw = option_kwargs(case)
     if mode == "value":
         seq = cls.write(addr, case["value"], **kw)
     else:
-        if asw:
-            kw["allow_short_write"] = True
         seq = cls.write_raw(addr, bytes(raw), **kw)
     outcome, err = "returned", None
     nw_at_fault = None
@@ -277,7 +297,8 @@ def _case_steps(case, keep=None):
             sig = "C10:value-encoding:" + row["cls"] if mode == "value" else "C10:data-not-stored"
             out.append((sig, "%s returned normally but location(s) %s hold [%s], expected [%s]"
                         % (where, ["0x%02x" % a for a in wrong], M.hexs([after[a] for a in locs[:n]]), M.hexs(raw))))
-        skip2 = spec["has_lock_byte"] and 2 not in locs[:n]
+        # the lock byte may end up different from what it was (0xFF, 'locked again') only if the write had to unlock
+        skip2 = spec["has_lock_byte"] and 2 not in locs[:n] and unlocks
         other = [i for i in range(M.NLOC) if after[i] != exp[i] and i not in locs[:n] and not (skip2 and i == 2)]
         if other:
             out.append(("C10:other-location-changed", "%s changed location(s) %s that do not belong to the data written"
@@ -425,6 +446,8 @@ def features(case):
         f.append("ignore-feedback")
     if case.get("force_unlock"):
         f.append("force-unlock")
+    for field in sorted(case.get("spell") or {}):
+        f.append("option-spelling:%s:%s" % (field, "truthy" if case.get(field) else "falsy"))
     return f
 
 
@@ -443,10 +466,12 @@ LOCKS = (0xFF, 0x55, 0x00)
 
 
 def _case(key, data, addr="gear", short=5, lock=0xFF, mode="raw", value=None, asw=False, force_unlock=False,
-          ignore_feedback=False, variant=None, fault=None, image=None):
+          ignore_feedback=False, variant=None, fault=None, image=None, spell=None):
     c = {"key": key, "mode": mode, "addr": addr, "short": short, "lock": lock, "asw": asw, "force_unlock": force_unlock,
          "ignore_feedback": ignore_feedback, "variant": variant or ["standard"], "fault": fault,
          "image": image or ["prng", 77]}
+    if spell:
+        c["spell"] = dict(spell)        # option field -> style in which it is handed over (see option_kwargs)
     if mode == "value":
         c["value"] = value
     else:
@@ -538,6 +563,12 @@ def _shard_keys(arg):
             run(C(pats[1][:1], asw=True), "read-only")
             for v in values_for(row, seed)[:3]:
                 run(C(None, mode="value", value=v), "read-only")
+            # options handed over as objects that are not bools: refused all the same
+            styles = M.spell_styles(True, seed + ki + row["first"])
+            for si, (field, _) in enumerate(OPTIONS):
+                for truth in (True, False):
+                    run(C(pats[0], addr=ADDRS[(si + truth) % 3], lock=LOCKS[si], spell={field: styles[(si + 2 * truth + seed) % len(styles)]},
+                          **{field: truth}), "read-only")
             continue
         # standard unit, no fault
         for pi, p in enumerate(pats):
@@ -555,6 +586,50 @@ def _shard_keys(arg):
             if quick and w > 12 and n % 5 != seed % 5 and n not in (1, w - 1):
                 continue
             run(C(pats[0][:n], asw=True, addr=ADDRS[n % 3], lock=LOCKS[n % 3]), "short-write")
+        # the three options handed over as truthy / falsy objects that are not bools: each must act as bool(object) says.
+        # A falsy object is passed explicitly, where its effect can be seen: feedback must still be heeded (unit that
+        # does not advance DTR0, altered answer), the bank must not be unlocked, a short write must still be refused.
+        for si, style in enumerate(M.spell_styles(quick, seed + row["first"] + ki)):
+            addr, lock, p = ADDRS[si % 3], LOCKS[si % 3], pats[si % 2]
+            one = {"ignore_feedback": style}
+            run(C(p, addr=addr, lock=lock, ignore_feedback=True, spell=one), "option-spelling")
+            run(C(p, addr=addr, lock=lock, spell=one, variant=["no_dtr0_inc"]), "option-spelling")
+            if locs != [2]:
+                run(C(p, addr=addr, lock=lock, spell=one, variant=["hole", [a for a in locs if a != 2][-1 - si % 2 if w > 2 else -1]]),
+                    "option-spelling")
+            run(C(p, addr=addr, lock=lock, spell=one, fault=[si % w, ("silence", "replace", "garble")[si % 3], 0x21]),
+                "option-spelling")
+            if not quick:
+                run(C(p, addr=addr, lock=lock, spell=one), "option-spelling")
+                run(C(p, addr=addr, lock=lock, spell=one, fault=[w, "replace", 0x01]), "option-spelling")
+                if lockable_row(row):
+                    run(C(p, addr=addr, lock=lock, spell=one, variant=["unlock_value", 0xAA]), "option-spelling")
+            one = {"force_unlock": style}
+            if 2 not in locs:
+                # (an unlocked or oddly locked bank shows whether the write went through the unlock / re-lock steps)
+                for lk in (LOCKS if not quick else (LOCKS[1 + si % 2],)):
+                    run(C(p, addr=addr, lock=lk, force_unlock=True, spell=one), "option-spelling")
+                    run(C(p, addr=addr, lock=lk, spell=one), "option-spelling")
+            one = {"asw": style}
+            run(C(p[:max(1, w - 1)], addr=addr, lock=lock, asw=True, spell=one), "option-spelling")
+            run(C(p[:w - 1], addr=addr, lock=lock, spell=one), "option-spelling")
+            if not quick:
+                run(C(p, addr=addr, lock=lock, asw=True, spell=one), "option-spelling")
+                run(C(p + [0x00], addr=addr, lock=lock, asw=True, spell=one), "option-spelling")
+                run(C(p, addr=addr, lock=lock, spell=one), "option-spelling")
+            # all three at once, another style each; and a value-level write
+            st3 = M.SPELL_STYLES
+            three = {"asw": style, "force_unlock": st3[(si + 1) % len(st3)], "ignore_feedback": st3[(si + 2) % len(st3)]}
+            run(C(p, addr=addr, lock=lock, spell=three, variant=["no_dtr0_inc"]), "option-spelling")
+            run(C(p[:max(1, w - 1)], addr=addr, lock=lock, asw=True, force_unlock=2 not in locs, ignore_feedback=True, spell=three),
+                "option-spelling")
+            vals = values_for(row, seed)
+            if vals:
+                two = {"force_unlock": style, "ignore_feedback": st3[(si + 1) % len(st3)]}
+                run(C(None, mode="value", value=vals[si % len(vals)], addr=addr, lock=LOCKS[(si + 1) % 3], spell=two,
+                      variant=["no_dtr0_inc"]), "option-spelling")
+                run(C(None, mode="value", value=vals[si % len(vals)], addr=addr, lock=LOCKS[(si + 1) % 3], spell=two,
+                      force_unlock=2 not in locs), "option-spelling")
         # value-level writes
         for vi, v in enumerate(values_for(row, seed)):
             for addr in ADDRS:
@@ -617,6 +692,11 @@ def _shard_keys(arg):
 
 
 # ---------------------------------------------------------------------- Hypothesis ----
+# mostly plain bools; else one to three of the options handed over in some other style
+_SPELL_ST = st.one_of(st.none(), st.none(), st.none(), st.fixed_dictionaries(
+    {}, optional={field: st.sampled_from(M.SPELL_STYLES) for field, _ in OPTIONS}))
+
+
 @st.composite
 def case_st(draw, wkeys, rokeys):
     key = draw(st.one_of(st.sampled_from(wkeys), st.sampled_from(wkeys), st.sampled_from(wkeys), st.sampled_from(rokeys)))
@@ -662,8 +742,9 @@ def case_st(draw, wkeys, rokeys):
         if draw(st.booleans()):
             kind = draw(st.sampled_from(["silence", "replace", "garble"]))
             fault = [draw(st.integers(0, w)), kind, draw(st.integers(1, 255)) if kind == "replace" else None]
+    spell = draw(_SPELL_ST)
     return _case(key, data, addr=addr, short=short, lock=lock, mode=mode, value=v, asw=asw, variant=variant, fault=fault,
-                 image=image, **fl)
+                 image=image, spell=spell, **fl)
 
 
 @st.composite
